@@ -79,13 +79,13 @@ CHECKS['C01'] = dict(
     level=MC, engine='seqx',
     technique='bounded-exhaustive enumeration of (key sequence, value sizes, writer configuration) through the real writer and reader, compared with the input sequence; real mtbl_dump binary on a deterministic subset',
     text='Every table of the bounded input/configuration space is written by the real writer into a memory file, opened by the real reader and iterated; the result must be the input sequence byte for byte. The space is built around the format\'s boundaries (empty key, prefixes, 0x00/0xff bytes, varint width changes at 128 and 16384, entries larger than a block, every block-cut position, every compression type and level class, restart cadence, foreign prefix), which the 15 tests touch at two shapes only.',
-    jobs=[
-        dict(name='struct', spec=_TBL, args=['struct'], tools=['mtbl_dump']),
+    jobs=[   # cheap jobs first: when the wall-clock budget ends, it is the big sweep that is cut short
+        dict(name='level', spec=_TBL, args=['level']),
+        dict(name='madvise', spec=_TBL, args=['madvise']),
         dict(name='cadence', spec=_TBL, args=['cadence'], tools=['mtbl_dump']),
         dict(name='length', spec=_TBL, args=['length'], tools=['mtbl_dump']),
-        dict(name='level', spec=_TBL, args=['level']),
         dict(name='pool', spec=_TBL, args=['pool']),
-        dict(name='madvise', spec=_TBL, args=['madvise']),
+        dict(name='struct', spec=_TBL, args=['struct'], tools=['mtbl_dump']),
     ],
     states_key='cases', transitions_key='transitions', traces_key='cases',
     rule='one case = (writer configuration, key sequence, value sizes); signature = (compression, restart interval, #blocks<=6, max entries per block<=4, #shortened separators<=3, any multi-restart block)',
@@ -99,10 +99,10 @@ CHECKS['C09'] = dict(
     technique='bounded-exhaustive enumeration of writer inputs/configurations; every produced file is decoded and structurally checked by an independent MTBL implementation (icodec)',
     text='The same bounded space as C01; each file is parsed by a from-scratch decoder that shares no code with mtbl and checked against the format rules of the statement (contiguity, length prefix + CRC32C, index separators between last key and next first key, zero-padded 512-byte trailer with magic, restart validity and cadence, longest-common-prefix elision, the two-sided block size rule).',
     jobs=[
-        dict(name='struct', spec=_TBL, args=['struct']),
+        dict(name='level', spec=_TBL, args=['level']),
         dict(name='cadence', spec=_TBL, args=['cadence']),
         dict(name='length', spec=_TBL, args=['length']),
-        dict(name='level', spec=_TBL, args=['level']),
+        dict(name='struct', spec=_TBL, args=['struct']),
     ],
     states_key='cases', transitions_key='transitions', traces_key='cases',
     rule='as C01', bounds=_tbl_bounds,
@@ -115,11 +115,11 @@ CHECKS['C10'] = dict(
     technique='bounded-exhaustive enumeration of writer inputs/configurations; every mtbl_metadata_* accessor compared with the value an independent decoder computes from the file bytes; real mtbl_info binary on a subset',
     text='For every file of the bounded space the nine trailer statistics exposed by the accessors (and printed by mtbl_info) are compared with the truth recomputed from the bytes by the independent decoder: entries, data blocks, bytes of data blocks and of the index block including headers, key and value byte sums, index offset, block size, algorithm, version.',
     jobs=[
-        dict(name='struct', spec=_TBL, args=['struct'], tools=['mtbl_info']),
+        dict(name='refused-adds', spec=H('h_gate.c', 'asan'), args=[]),
         dict(name='cadence', spec=_TBL, args=['cadence'], tools=['mtbl_info']),
         dict(name='length', spec=_TBL, args=['length'], tools=['mtbl_info']),
         dict(name='pool', spec=_TBL, args=['pool']),
-        dict(name='refused-adds', spec=H('h_gate.c', 'asan'), args=[]),
+        dict(name='struct', spec=_TBL, args=['struct'], tools=['mtbl_info']),
     ],
     states_key='cases', transitions_key='transitions', traces_key='cases',
     rule='as C01', bounds=_tbl_bounds,
@@ -166,9 +166,9 @@ CHECKS['C03'] = dict(
     technique='explicit-state breadth-first search over the real reader iterator objects: states are operation histories replayed on fresh iterators, deduplicated by a canonical hash of the private iterator fields plus the reference model state, run to a fixpoint; plus an undeduplicated depth-bounded tree and a two-iterator product',
     text='For every table layout (1-4 blocks of 1-3 entries, plus 5-10 entry blocks so that galloping/binary search over restart points is exercised), restart interval {1,2,3,16}, foreign prefix {0,13}, compression {none,lz4}, and every iterator kind (iter, get, get_prefix, get_range with boundary/miss/reversed arguments) the search applies next and seek(k) for every k in the target set (stored keys, just-below neighbours, empty key, past-the-end key, index separators) from EVERY reachable iterator state until no new state appears, checking each step against a lower-bound reference iterator and re-reading the previously returned buffers. Because the state space is finite the verdict holds for histories of any length, which is exactly what the property quantifies over.',
     jobs=[
+        dict(name='pair', spec=_RIT, args=['pair']),
         dict(name='bfs', spec=_RIT, args=['bfs']),
         dict(name='tree', spec=_RIT, args=['tree']),
-        dict(name='pair', spec=_RIT, args=['pair']),
     ],
     states_key='states', transitions_key='transitions', traces_key='executions',
     rule='a state = canonical hash of (block_offset, decoded block content, both block iterators, flags, reference position); signature = (layout, restart, prefix, compression, iterator kind/arguments)',
@@ -203,14 +203,14 @@ CHECKS['C05'] = dict(
     technique='explicit-state breadth-first search over the real merger iterator (state = replayed history, canonical hash of heap, look-ahead entries, cur_key/cur_val, flags and every source iterator), to a fixpoint; undeduplicated tree; exhaustive one-shot lookups',
     text='For every family of k<=2 (thorough 3) sources over {empty key, a, b, c}, every merger iterator kind (iter, get, get_prefix, get_range over boundary arguments) with and without merge function, next and seek(k) for k over the universe and its neighbours are applied from every reachable state until closure; each step is checked against a lower-bound reference over the merged content (values compared as fold trees). This covers seeking to the key just returned, backwards after exhaustion, and onto keys that need merging, from any prior history.',
     jobs=[
-        dict(name='bfs', spec=_MRG, args=['bfs']),
-        dict(name='tree', spec=_MRG, args=['tree']),
         dict(name='lookup', spec=_MRG, args=['lookup']),
+        dict(name='tree', spec=_MRG, args=['tree']),
+        dict(name='bfs', spec=_MRG, args=['bfs']),
     ],
     states_key='states', transitions_key='transitions', traces_key='executions',
     rule='a state = canonical hash of the merger iterator + source iterators + reference position; signature = (merge on/off, iterator spec, number of sources holding each key, kinds)',
     bounds={'quick': 'k<=2 sources x 16 subsets x {reader, multi-block reader, user} x 15 iterator specs x merge on/off; 10 seek targets; fixpoint; tree depth 3; lookups: all (kind,a,b) over 10 targets',
-            'thorough': 'k<=3 sources, 4 kind assignments; tree depth 4'},
+            'thorough': 'k<=3 sources x {reader, mixed, duplicate-key user source}; tree depth 4 on k<=2'},
     nonzero=['states', 'transitions', 'searches', 'lookups'],
     assumptions=['a NULL iterator counts as the empty result'],
     budget={'quick': 400, 'thorough': 2400},
